@@ -309,6 +309,102 @@ def rewrite_r4(toks):
     return out, fired
 
 
+def rewrite_or_guard(toks):
+    """R14: a match arm `P1 | P2 if G => B` (or-pattern with guard, rejected by Verus) becomes `P1 if G => B, P2 if G => B`."""
+    fired = False
+    i = 0
+    out = list(toks)
+    while i < len(out):
+        t = out[i]
+        if t.kind == "punct" and t.text == "=" and i + 1 < len(out) and out[i + 1].text == ">":
+            arrow = i
+            # arm start: scan back to `,` `{` `}` at depth 0
+            j = arrow - 1
+            depth = 0
+            while j >= 0:
+                u = out[j]
+                if u.kind == "punct" and u.text in ")]}":
+                    if u.text == "}" and depth == 0:
+                        break
+                    depth += 1
+                elif u.kind == "punct" and u.text in "([{":
+                    if depth == 0:
+                        break
+                    depth -= 1
+                elif u.kind == "punct" and u.text == "," and depth == 0:
+                    break
+                j -= 1
+            start = j + 1
+            head = out[start:arrow]
+            # find `if` at depth 0 and `|` before it
+            depth = 0
+            if_idx = None
+            bars = []
+            for k, u in enumerate(head):
+                if u.kind == "punct" and u.text in "([{":
+                    depth += 1
+                elif u.kind == "punct" and u.text in ")]}":
+                    depth -= 1
+                elif depth == 0 and u.kind == "ident" and u.text == "if" and if_idx is None:
+                    if_idx = k
+                elif depth == 0 and u.kind == "punct" and u.text == "|" and if_idx is None:
+                    bars.append(k)
+            if if_idx is not None and bars:
+                # body extent
+                b = arrow + 2
+                while b < len(out) and out[b].kind in ("ws", "lcomment", "bcomment"):
+                    b += 1
+                if out[b].kind == "punct" and out[b].text == "{":
+                    e = rl.match_close(out, b)
+                    body = out[arrow + 2:e + 1]
+                    end = e + 1
+                    k2 = end
+                    while k2 < len(out) and out[k2].kind == "ws":
+                        k2 += 1
+                    if k2 < len(out) and out[k2].text == ",":
+                        end = k2 + 1
+                else:
+                    e = b
+                    depth = 0
+                    while e < len(out):
+                        u = out[e]
+                        if u.kind == "punct" and u.text in "([{":
+                            depth += 1
+                        elif u.kind == "punct" and u.text in ")]}":
+                            if depth == 0:
+                                break
+                            depth -= 1
+                        elif u.kind == "punct" and u.text == "," and depth == 0:
+                            break
+                        e += 1
+                    body = out[arrow + 2:e]
+                    end = e + 1 if (e < len(out) and out[e].text == ",") else e
+                lead = []
+                hs = 0
+                while hs < len(head) and head[hs].kind in ("ws", "lcomment", "bcomment"):
+                    lead.append(head[hs])
+                    hs += 1
+                pats = []
+                prev = hs
+                for bidx in bars:
+                    pats.append(head[prev:bidx])
+                    prev = bidx + 1
+                pats.append(head[prev:if_idx])
+                guard = head[if_idx:]
+                new = list(lead)
+                for pi, pt in enumerate(pats):
+                    ptxt = "".join(x.text for x in pt).strip()
+                    gtxt = "".join(x.text for x in guard).strip()
+                    new += [rl.Tok("syn", ptxt + " " + gtxt + " =>", -1, -1)] + [rl.Tok(x.kind, x.text, (x.start if pi == 0 else -1), x.end) for x in body]
+                    new.append(rl.Tok("syn", ",\n" if pi + 1 < len(pats) else ",", -1, -1))
+                out = out[:start] + new + out[end:]
+                fired = True
+                i = start + len(new)
+                continue
+        i += 1
+    return out, fired
+
+
 def split_signature(toks, body_idx):
     """toks[:body_idx] is the header of a fn item (already R0-stripped).  Return dict of text parts."""
     # find `fn`
@@ -698,6 +794,10 @@ def generate(unit, template_text, repo_root, units_dir=None):
         stoks, f4 = rewrite_r4(stoks)
         if f4:
             rules.append("R4:bytestr->array")
+        if blk.kind == "fn":
+            stoks, f14 = rewrite_or_guard(stoks)
+            if f14:
+                rules.append("R14:or-pattern+guard arm duplicated per pattern")
         stext = "".join(t.text for t in stoks)
         if opts.get("subst"):
             for pair in opts["subst"].split(","):
@@ -764,6 +864,12 @@ def generate(unit, template_text, repo_root, units_dir=None):
                          for t in body_toks]
             pre_body = " let mut this = self;"
             rules.append("R1:mut-self")
+        # R1b: `mut x: T` parameters -> immutable parameter + `let mut x = x;` (so that contracts name the argument value)
+        mparams = re.findall(r"(?:^|,)\s*mut\s+([A-Za-z_][A-Za-z0-9_]*)\s*:", params)
+        if mparams:
+            params = re.sub(r"(^|,)(\s*)mut\s+([A-Za-z_][A-Za-z0-9_]*)(\s*:)", r"\1\2\3_in\4", params)
+            pre_body += "".join(" let mut %s = %s_in;" % (x, x) for x in mparams)
+            rules.append("R1b:mut-param(%s)" % ",".join(mparams))
         for (k, itname, tl) in sorted(blk.desugar, reverse=True):
             body_toks, note = desugar_for(body_toks, k, itname, where)
             rules.append("%s (loop %d, iterator `%s`)" % (note, k, itname))
@@ -816,6 +922,8 @@ def generate(unit, template_text, repo_root, units_dir=None):
         clauses = []
         if opts.get("external_body"):
             g.emit("#[verifier::external_body]", kind="sig", fn=fid, tline=blk.tline, props=props)
+        if opts.get("spinoff"):
+            g.emit("#[verifier::spinoff_prover]", kind="sig", fn=fid, tline=blk.tline, props=props)
         if opts.get("rlimit"):
             g.emit("#[verifier::rlimit(%s)]" % opts["rlimit"], kind="sig", fn=fid, tline=blk.tline, props=props)
         g.emit(sig_line, kind="sig", fn=fid, tline=blk.tline, src=rel, srcline=start_line, props=props)
@@ -939,10 +1047,11 @@ def generate(unit, template_text, repo_root, units_dir=None):
             for (l, info) in out_lines:
                 g.lines.append(l)
                 g.map.append(info)
-        allp = sorted(set(props) | set(x for c in clauses for x in c.get("props", []))
+        allp = sorted(set(props) | set(x for c in clauses for x in c.get("props", [])) | set(x for x in str(opts.get("safety", "")).split(",") if x)
                       | set(x for x in str(opts.get("inherits", "")).split(",") if x))
         g.fns[fid] = dict(props=props, all_props=allp, deps=[x for x in str(opts.get("deps", "")).split(",") if x],
-                          inherits=[x for x in str(opts.get("inherits", "")).split(",") if x], first_line=fn_first, last_line=len(g.lines), clauses=clauses,
+                          inherits=[x for x in str(opts.get("inherits", "")).split(",") if x],
+                          safety=[x for x in str(opts.get("safety", "")).split(",") if x], first_line=fn_first, last_line=len(g.lines), clauses=clauses,
                           external_body=bool(opts.get("external_body")), file=rel, path=" :: ".join(scopes),
                           src_lines=[start_line, end_line])
         rec["fn"] = fid
